@@ -1,6 +1,7 @@
 package main
 
 import (
+	"go/constant"
 	"fmt"
 	"go/types"
 	"strings"
@@ -78,6 +79,16 @@ func init() {
 		"strings.Contains":   def("Bool", func(a []Term) Term { return fmt.Sprintf("(str.contains %s %s)", a[0], a[1]) }),
 		"strings.ReplaceAll": def("String", func(a []Term) Term { return fmt.Sprintf("(str.replace_all %s %s %s)", a[0], a[1], a[2]) }),
 		"strings.Index":      def("Int", func(a []Term) Term { return fmt.Sprintf("(str.indexof %s %s 0)", a[0], a[1]) }),
+		"strings.IndexRune": func(e *enc, x *ssa.Call, a []Term) bool {
+			// byte model of strings: exact for ASCII runes (a constant rune below 0x80); otherwise left uninterpreted
+			if c, ok := x.Call.Args[1].(*ssa.Const); ok && c.Value != nil {
+				if v, exact := constant.Int64Val(c.Value); exact && v >= 0 && v < 0x80 {
+					e.fr.val[x] = e.define("idxrune", "Int", fmt.Sprintf("(str.indexof %s (str.from_code %d) 0)", a[0], v))
+					return true
+				}
+			}
+			return false
+		},
 		"strings.TrimPrefix": def("String", func(a []Term) Term {
 			return fmt.Sprintf("(ite (str.prefixof %s %s) (str.substr %s (str.len %s) (- (str.len %s) (str.len %s))) %s)", a[1], a[0], a[0], a[1], a[0], a[1], a[0])
 		}),
